@@ -358,12 +358,17 @@ def install_vec(I: Interp):
 
     def bsum(I, a, k, n):
         import ast as _a
+        from .absint import UnknownBool
         items = I.iterate(a[0], n)
         acc = a[1] if len(a) > 1 else zero(I)
         for x in items:
+            if isinstance(x, (bool, UnknownBool)):
+                # a sum over comparison results counts the true ones: each undecided comparison forks
+                x = (zero(I) + 1) if I.truth(x, n) else zero(I)
             acc = I.binop(_a.Add(), acc, x, n)
         return acc
     E["builtins.sum"] = bsum
+    E["numpy.count_nonzero"] = bsum
     E["numpy.sum"] = lambda I, a, k, n: bsum(I, a, k, n) if isinstance(a[0], Vec) else Num.atom(f"sum({I.describe(a[0])})")
     I.vec_len = lambda v: Num.const(len(v.items))
 
